@@ -283,7 +283,6 @@ func DoH1(op string) (core.Result, bool) {
 		core.Count("h1.readress:" + strings.SplitN(stop, ":", 2)[0])
 	default:
 		if r, ok := doH1Write(args, wants); ok {
-			r.ModelOp = res.ModelOp
 			return r, true
 		}
 		res.Impl = "bad-op"
